@@ -23,7 +23,9 @@ EXPLANATION = (
     '(reverse creation order, equal/unsanitary/absent job names, literal noise with quotes/$/braces/uid-like text, '
     'external copy of an input, no scratch clean-up, names that need shell quoting, per-member external outputs, a local '
     'input file uploaded by the client, job names of 244/245/246/250/251/300 characters sharing all but their last '
-    'character or identical - also with two producers feeding one consumer). The oracle is independent: it '
+    'character or identical - also with two producers feeding one consumer; what directly follows a reference (end of '
+    'statement, ";", "_tmp", a letter, ".bak", "/sub", a closing double quote) as a symbolic choice per mention, at most '
+    'one mention deviating, N=3). The oracle is independent: it '
     'EXECUTES the submitted job specs on an abstract remote store + per-job local file system with shell word '
     'parsing (harness/C18_shell.py) and checks that every read finds the content its producer wrote, every upload '
     'finds its file, external destinations end up with the right content, no two different contents ever meet at '
@@ -66,7 +68,8 @@ CLAUSES = {
 def _configs(tier):
     """-> (configurations, pool budget in seconds).  Shards that do not finish before the deadline are not discharged."""
     common = dict(small_kinds=[1, 3], variants_on_small_space=True, special_fix_x=True, in_reads2=[], two_reads_jobs=[])
-    allv = list(range(20))
+    allv = list(range(21))
+    allv4 = list(range(20))      # N=4: without the per-mention suffix variant (too many mentions)
     longnames = [0, 12, 13, 14, 15, 16, 17, 18, 19]
     if tier == 'quick':
         return [dict(common, tag='N3', N=3, variants=allv, out_kinds=[1, 2, 3, 4, 5, 6], in_reads1=['inA', 'ig'],
@@ -82,7 +85,7 @@ def _configs(tier):
         dict(common, tag='N3fanin', N=3, variants=longnames, out_kinds=[1, 3], in_reads1=['inA'], two_reads_jobs=[2],
              variants_keep_second_read=True,
              nfix=['o_0', 'o_1']),
-        dict(common, tag='N4', N=4, variants=allv, out_kinds=[1, 3, 5, 6], in_reads1=['inA'], x_free_jobs=[1, 2, 3],
+        dict(common, tag='N4', N=4, variants=allv4, out_kinds=[1, 3, 5, 6], in_reads1=['inA'], x_free_jobs=[1, 2, 3],
              nfix=['o_0', 'o_1']),
     ], 1300
 
